@@ -41,7 +41,75 @@ def plan(tier, seed):
             shards.append({"kind": "same", "item": it, "seed": seed * 9176 + i * 13 + r, "n": n, "time_cap": 30 if tier == "quick" else 600})
     for i in range(6 if tier == "quick" else 60):
         shards.append({"kind": "older", "pair": seed * 50021 + i, "seed": seed * 77 + i, "n": n, "time_cap": 30 if tier == "quick" else 600})
+    shards.append({"kind": "directed", "seed": seed})
     return shards
+
+
+def run_directed(shard) -> Result:
+    """streams of (a) the bundled well-known message classes as top-level frames, (b) matrix messages whose wrapper /
+    float fields alternate between +0.0 and -0.0 (equal values with different encodings, frame after frame), written by
+    betterproto and read back by betterproto and by the reference's length-prefixed reader"""
+    import betterproto
+    import betterproto.lib.google.protobuf as g
+    from google.protobuf import proto as gproto
+    from google.protobuf import struct_pb2, wrappers_pb2, any_pb2, field_mask_pb2, empty_pb2
+
+    res = Result()
+    w = {"kind": "directed"}
+    frames = [
+        (g.Struct(fields={"a": g.Value(number_value=1.5), "b": g.Value(string_value="x"), "c": g.Value(bool_value=True)}), struct_pb2.Struct),
+        (g.DoubleValue(value=0.0), wrappers_pb2.DoubleValue), (g.DoubleValue(value=-0.0), wrappers_pb2.DoubleValue),
+        (g.DoubleValue(value=0.0), wrappers_pb2.DoubleValue), (g.FloatValue(value=-0.0), wrappers_pb2.FloatValue),
+        (g.FloatValue(value=0.0), wrappers_pb2.FloatValue), (g.Struct(), struct_pb2.Struct),
+        (g.ListValue(values=[g.Value(number_value=1), g.Value(string_value="s")]), struct_pb2.ListValue),
+        (g.Any(type_url="t/x", value=b"abc"), any_pb2.Any), (g.FieldMask(paths=["a", "b.c"]), field_mask_pb2.FieldMask),
+        (g.Empty(), empty_pb2.Empty), (g.Int64Value(value=-1), wrappers_pb2.Int64Value),
+        (g.Struct(fields={"k" + str(i): g.Value(number_value=i) for i in range(12)}), struct_pb2.Struct),
+    ]
+    s = io.BytesIO()
+    datas = []
+    for m, _ in frames:
+        m.dump(s, betterproto.SIZE_DELIMITED)
+        datas.append(bytes(m))
+    stream = s.getvalue()
+    exp = b"".join(spec.enc_varint(len(d)) + d for d in datas)
+    res.evaluations += 1
+    res.note("streams")
+    res.note("directed_wellknown_frames", len(frames))
+    if stream != exp:
+        bad = next((i for i in range(len(frames)) if not exp.startswith(b"".join(spec.enc_varint(len(d)) + d for d in datas[: i + 1])) or True), 0)
+        pos = 0
+        for i, d in enumerate(datas):
+            fr = spec.enc_varint(len(d)) + d
+            if stream[pos:pos + len(fr)] != fr:
+                bad = i
+                break
+            pos += len(fr)
+        res.violation("framing", ["stream-differs-from-varint-prefix-framing", "well-known:" + type(frames[bad][0]).__name__],
+                      f"frame #{bad} ({type(frames[bad][0]).__name__}): stream {stream[pos:pos + 12].hex()}.. expected prefix {spec.enc_varint(len(datas[bad])).hex()} + {datas[bad][:10].hex()}..", w)
+        return res
+    rs = io.BytesIO(stream)
+    for i, ((m, rcls), d) in enumerate(zip(frames, datas)):
+        try:
+            got = type(m)().load(rs, betterproto.SIZE_DELIMITED)
+            res.note("frames_read")
+            if bytes(got) != d:
+                res.violation("read-value", ["well-known:" + type(m).__name__, "message-differs"], f"frame #{i}: {bytes(got).hex()[:80]} vs {d.hex()[:80]}", w)
+        except Exception as e:
+            res.violation("read-raises", ["well-known:" + type(m).__name__, "raised:" + type(e).__name__], f"frame #{i}: {e!r}", w)
+            break
+    rs = io.BytesIO(stream)
+    for i, ((m, rcls), d) in enumerate(zip(frames, datas)):
+        try:
+            rm = gproto.parse_length_prefixed(rcls, rs)
+            if rm is None or rm.SerializeToString(deterministic=True) != rcls.FromString(d).SerializeToString(deterministic=True):
+                res.violation("framing-reference-read", ["reference-reads-different-value", "well-known:" + type(m).__name__], f"frame #{i}", w)
+                break
+            res.note("reference_frames_read")
+        except Exception as e:
+            res.violation("framing-reference-read", ["reference-reader-raised", type(e).__name__], f"frame #{i}: {e!r}", w)
+            break
+    return res
 
 
 def _gen_seq(b, rng, g, wg, bp):
@@ -211,6 +279,8 @@ def _same_message(b, rb, mi, got, d: bytes, same_schema: bool) -> bool:
 
 
 def run_shard(shard) -> Result:
+    if shard.get("kind") == "directed":
+        return run_directed(shard)
     res = Result()
     rng = random.Random(f"c10-{shard['seed']}")
     try:
@@ -258,6 +328,8 @@ def run_shard(shard) -> Result:
 
 
 def replay(w):
+    if w.get("kind") == "directed":
+        return run_directed({"kind": "directed", "seed": 0}).violations
     res = Result()
     sh = w["shard"]
     if sh["kind"] == "same":
